@@ -424,6 +424,154 @@ var scenarioTable = map[string]func(s *sc){
 		s.inject(2, s.adv.mkVC(voteD{ht: protocol.LEAN_HELIX_VIEW_CHANGE, inst: clusterInstance, h: 1, v: 2, sender: s.cl.ids[1]}, nil), "vc_no_proof")
 		s.flush(any)
 	},
+	// C08: a prepared proof spliced from two views: PREPREPARE reference of view 1 (signed by its Byzantine leader)
+	// with the genuine PREPAREs of view 0 for the same block, offered to the honest leader of view 2
+	"proof_spliced_from_two_views": func(s *sc) {
+		a := s.lockAtView0()
+		for _, i := range []int{0, 2, 3} {
+			s.timeout(i)
+		}
+		s.dropAll(kinds("VC"))
+		for _, i := range []int{0, 2, 3} {
+			s.timeout(i) // view 2, leader n2
+		}
+		s.dropAll(kinds("VC"))
+		pr := proofD{present: true, pp: ref(protocol.LEAN_HELIX_PREPREPARE, 1, 1, a), ppBy: s.cl.ids[1], p: ref(protocol.LEAN_HELIX_PREPARE, 1, 0, a),
+			pBy: []primitives.MemberId{s.cl.ids[2], s.cl.ids[3]}}
+		s.inject(2, s.adv.mkVC(voteD{ht: protocol.LEAN_HELIX_VIEW_CHANGE, inst: clusterInstance, h: 1, v: 2, sender: s.cl.ids[1], proof: pr}, a), "vc_proof_mixview")
+		s.flush(any)
+	},
+	// C01/C07: the Byzantine member leads views 1 and 5; it replays the genuine view-1 votes inside a NEW_VIEW for view 5
+	"new_view_with_votes_of_older_view": func(s *sc) {
+		s.startNodes()
+		s.dropAll(any)
+		for _, i := range []int{0, 2, 3} {
+			s.timeout(i)
+		}
+		oldVotes := s.genuineVotesFor(1, 1)
+		s.dropAll(kinds("VC"))
+		a := s.adv.newBody(s.run, 1, false)
+		d := nvD{inst: clusterInstance, h: 1, v: 1, sender: s.cl.ids[1], votes: append(append([]*protocol.ViewChangeMessageContentBuilder{}, oldVotes...), s.byzVote(1, 1, 1)),
+			pp: ref(protocol.LEAN_HELIX_PREPREPARE, 1, 1, a), ppBy: s.cl.ids[1]}
+		for _, i := range []int{0, 3} {
+			s.inject(i, s.adv.mkNV(d, a), "nv")
+		}
+		s.flush(kinds("P"))
+		s.inject(0, s.adv.mkP(ref(protocol.LEAN_HELIX_PREPARE, 1, 1, a), s.cl.ids[1], ""), "p_byz_or_outsider")
+		s.flush(func(p pending, k string) bool { return k == "C" && p.to == 0 })
+		s.inject(0, s.adv.mkC(ref(protocol.LEAN_HELIX_COMMIT, 1, 1, a), s.cl.ids[1], "", ""), "c_byz_or_outsider")
+		s.dropAll(any) // n0 has committed A; n3 is prepared on A without the commits; n2 saw nothing of view 1
+		b := s.adv.newBody(s.run, 1, false)
+		var stale []*protocol.ViewChangeMessageContentBuilder
+		for _, m := range s.adv.vcSeen {
+			if uint64(m.View()) == 1 && (m.SenderMemberId().Equal(s.cl.ids[2]) || m.SenderMemberId().Equal(s.cl.ids[3])) {
+				stale = append(stale, genuineVote(m))
+			}
+		}
+		d5 := nvD{inst: clusterInstance, h: 1, v: 5, sender: s.cl.ids[1], votes: append(stale, s.byzVote(1, 5, 1)), pp: ref(protocol.LEAN_HELIX_PREPREPARE, 1, 5, b), ppBy: s.cl.ids[1]}
+		for _, i := range []int{2, 3} {
+			s.inject(i, s.adv.mkNV(d5, b), "nv_vote_other_view")
+		}
+		s.flush(kinds("P"))
+		for _, i := range []int{2, 3} {
+			s.inject(i, s.adv.mkP(ref(protocol.LEAN_HELIX_PREPARE, 1, 5, b), s.cl.ids[1], ""), "p_byz_or_outsider")
+		}
+		s.flush(kinds("P", "C"))
+		for _, i := range []int{2, 3} {
+			s.inject(i, s.adv.mkC(ref(protocol.LEAN_HELIX_COMMIT, 1, 5, b), s.cl.ids[1], "", ""), "c_byz_or_outsider")
+		}
+		s.flush(kinds("C"))
+	},
+	// C04/C03: genuine locked votes and a proposal header over the proven hash, but another block attached; the
+	// receivers are prepared on the proven block themselves
+	"new_view_block_swapped_under_genuine_proof": func(s *sc) {
+		a := s.lockAtView0()
+		for _, i := range []int{0, 2, 3} {
+			s.timeout(i)
+		}
+		votes := append(s.genuineVotesFor(1, 1), s.byzVote(1, 1, 1))
+		s.dropAll(kinds("VC"))
+		x := s.adv.newBody(s.run, 1, true)
+		d := nvD{inst: clusterInstance, h: 1, v: 1, sender: s.cl.ids[1], votes: votes, pp: ref(protocol.LEAN_HELIX_PREPREPARE, 1, 1, a), ppBy: s.cl.ids[1]}
+		for _, i := range []int{0, 2, 3} {
+			s.inject(i, s.adv.mkNV(d, x), "nv_block_mismatch")
+		}
+		s.flush(kinds("P"))
+		for _, i := range []int{0, 2, 3} {
+			s.inject(i, s.adv.mkP(ref(protocol.LEAN_HELIX_PREPARE, 1, 1, a), s.cl.ids[1], ""), "p_byz_or_outsider")
+		}
+		s.flush(kinds("P", "C"))
+		for _, i := range []int{0, 2, 3} {
+			s.inject(i, s.adv.mkC(ref(protocol.LEAN_HELIX_COMMIT, 1, 1, a), s.cl.ids[1], "", ""), "c_byz_or_outsider")
+		}
+		s.flush(kinds("C"))
+	},
+	// C09/C11: the Byzantine leader of view 1 sends its own PREPARE for view 1 while the node is still in view 0, then a
+	// proper NEW_VIEW; the node prepares in view 1 and must still produce a valid lock proof when it leaves the view
+	"leader_prepare_for_future_view": func(s *sc) {
+		s.startNodes()
+		s.dropAll(any)
+		b := s.adv.newBody(s.run, 1, false)
+		s.inject(3, s.adv.mkP(ref(protocol.LEAN_HELIX_PREPARE, 1, 1, b), s.cl.ids[1], ""), "p_leader_future_view")
+		for _, i := range []int{0, 2, 3} {
+			s.timeout(i)
+		}
+		votes := append(s.genuineVotesFor(1, 1), s.byzVote(1, 1, 1))
+		s.dropAll(kinds("VC"))
+		d := nvD{inst: clusterInstance, h: 1, v: 1, sender: s.cl.ids[1], votes: votes, pp: ref(protocol.LEAN_HELIX_PREPREPARE, 1, 1, b), ppBy: s.cl.ids[1]}
+		for _, i := range []int{0, 2, 3} {
+			s.inject(i, s.adv.mkNV(d, b), "nv")
+		}
+		s.flush(kinds("P"))
+		s.dropAll(kinds("C"))
+		for _, i := range []int{0, 2, 3} {
+			s.timeout(i) // view 2, leader n2: the locked votes must be valid and counted
+		}
+		s.flush(any)
+	},
+	// C03/C08: before the nodes start height 1, the Byzantine leader n0 sends them its COMMIT for (1, 0, A) signed for
+	// ANOTHER instance (valid share); it waits in the future cache; then height 1 runs normally on block A
+	"future_commit_signed_for_other_instance": func(s *sc) {
+		a := s.adv.newBody(s.run, 1, false)
+		rf := ref(protocol.LEAN_HELIX_COMMIT, 1, 0, a)
+		rf.inst = clusterInstance + 1
+		for _, i := range []int{1, 2, 3} {
+			s.inject(i, s.adv.mkC(rf, s.cl.ids[0], "", ""), "c_future_height_other_instance")
+		}
+		s.startNodes()
+		for _, i := range []int{1, 2, 3} {
+			s.inject(i, s.adv.mkPP(ref(protocol.LEAN_HELIX_PREPREPARE, 1, 0, a), s.cl.ids[0], "", a), "pp_leader")
+		}
+		s.flush(kinds("P"))
+		s.flush(kinds("C"))
+	},
+	// C10: the honest leader of view 2 is elected while still in view 0 (votes of the others arrive before its own
+	// timer fires); afterwards one of the votes is delivered again and a late Byzantine vote arrives
+	"leader_elected_by_jump_then_more_votes": func(s *sc) {
+		s.startNodes()
+		s.dropAll(any)
+		for round := 0; round < 2; round++ {
+			for _, i := range []int{0, 3} {
+				s.timeout(i)
+			}
+			if round == 0 {
+				s.dropAll(kinds("VC"))
+			}
+		}
+		var votes []pending
+		for _, p := range s.pool {
+			if kindOf(p.raw) == "VC" && p.to == 2 {
+				votes = append(votes, p)
+			}
+		}
+		s.flush(kinds("VC")) // n0's and n3's votes for view 2: not yet a quorum
+		s.inject(2, s.adv.mkVC(voteD{ht: protocol.LEAN_HELIX_VIEW_CHANGE, inst: clusterInstance, h: 1, v: 2, sender: s.cl.ids[1]}, nil), "vc_no_proof")
+		for _, p := range votes { // re-delivery of the same votes
+			s.deliverTo(s.node(2), p.raw, "deliver", p.from, "dup")
+		}
+		s.inject(2, s.adv.mkVC(voteD{ht: protocol.LEAN_HELIX_VIEW_CHANGE, inst: clusterInstance, h: 1, v: 2, sender: s.cl.ids[1]}, nil), "vc_no_proof")
+		s.flush(any)
+	},
 	// C10: a second, fully valid NEW_VIEW for the view the node is already in, proposing another block
 	"second_new_view_same_view": func(s *sc) {
 		s.startNodes()
@@ -489,7 +637,7 @@ func cmdScenarios(args []string) int {
 			continue
 		}
 		byz := []int{1}
-		if name == "vote_with_block_but_no_proof" || name == "spliced_proof_for_rejected_block" {
+		if name == "vote_with_block_but_no_proof" || name == "spliced_proof_for_rejected_block" || name == "future_commit_signed_for_other_instance" {
 			byz = []int{0}
 		}
 		if name == "lagging_node_drains_cached_height" {
